@@ -161,6 +161,12 @@ func c04CaseBody(c *core.Ctx, t *dyn.TypeOps, ch, k, s, e int, caseID string, fo
 		// its own length when the window is appended to
 		w.Slice(win, 0, win.M.Len/ch, "same-length-twin")
 	}
+	// channel views of the window, taken before anything is appended: they
+	// share the storage too and must see every appended value
+	var cvs []dyn.Chan
+	for ci := 0; ci < ch; ci++ {
+		cvs = append(cvs, win.B.Channel(ci))
+	}
 	capv := win.M.Cap - win.M.Len
 	d := map[string]any{"type": t.Name, "channels": ch, "parent_frames": k, "window": []int{s, e}, "spare_samples": capv}
 	counts := []int{0, 1, capv - 1, capv, capv + 1, 3*capv + 7}
@@ -204,6 +210,19 @@ func c04CaseBody(c *core.Ctx, t *dyn.TypeOps, ch, k, s, e int, caseID string, fo
 			if full {
 				ps = w.CheckAll()
 				c.Obs("full_world_checks", 1)
+				for ci, cv := range cvs {
+					if cv.Length() != win.B.Length() {
+						c.Violate(inst+"|channel-view", caseID, fmt.Sprintf("after call %d the channel view taken before the appends reports length %d, the buffer %d", calls, cv.Length(), win.B.Length()), d)
+						return
+					}
+					for i := 0; ch*i+ci < win.M.Len; i++ {
+						if got, want := cv.Sample(i), win.M.St.Cells[win.M.Off+ch*i+ci]; !got.Same(want) {
+							c.Violate(inst+"|channel-view", caseID, fmt.Sprintf("after call %d the channel view taken before the appends reads %v for channel %d sample %d, the storage holds %v", calls, got, ci, i, want), d)
+							return
+						}
+						c.Obs("samples_read_through_earlier_channel_views", 1)
+					}
+				}
 			} else {
 				ps = w.CheckView(win)
 			}
